@@ -51,7 +51,8 @@ class Family:
     name = ""          # family name of harness/cmd/conc
     pid = ""           # the sequential property whose operators judge the trace
     trace = ""         # trace module
-    records = None     # family driver whose recorded trace adds cases (None: TLC-generated cases only)
+    driver = ""        # the family's own driver (harness/cmd/<driver>): drift guard, recorded traces
+    records = False    # cases taken from the trace the family driver records are added (seeded random values)
     shards = 6
 
     def pool(self, c, sd): raise NotImplementedError
@@ -65,7 +66,7 @@ class Family:
 
 # ------------------------------------------------------------------ C17 conversions
 class F17(Family):
-    name, pid, trace, shards = "f17", "C17", "Trace_C17", 6
+    name, pid, trace, shards, driver = "f17", "C17", "Trace_C17", 6, "conv17"
 
     def pool(self, c, sd):
         cases, res = _gen(c, sd, "MC_C17", "MC_C17_gen", workers=3)
@@ -90,7 +91,7 @@ class F17(Family):
 
 # ------------------------------------------------------------------ C12 identities
 class F12(Family):
-    name, pid, trace, shards = "f12", "C12", "Trace_C12", 6
+    name, pid, trace, shards, driver = "f12", "C12", "Trace_C12", 6, "identity"
 
     def pool(self, c, sd):
         return _gen(c, sd, "MC_C12_gen", "MC_C12_gen", workers=3, expect_all=False, at_least=15000)
@@ -110,7 +111,7 @@ class F12(Family):
 
 # ------------------------------------------------------------------ C13 slice and area lists
 class F13(Family):
-    name, pid, trace, shards = "f13", "C13", "Trace_C13", 5
+    name, pid, trace, shards, driver = "f13", "C13", "Trace_C13", 5, "arealists"
 
     def pool(self, c, sd):
         cases, res = _gen(c, sd, "MC_C13_gen", "MC_C13_gen", workers=3, expect_all=False, at_least=3000)
@@ -132,7 +133,7 @@ class F13(Family):
 
 # ------------------------------------------------------------------ C15 QoS rules / flow descriptions
 class F15(Family):
-    name, pid, trace, shards, records = "f15", "C15", "Trace_C15", 8, "qos"
+    name, pid, trace, shards, driver, records = "f15", "C15", "Trace_C15", 8, "qos", True
 
     def pool(self, c, sd):
         cases, res = _gen(c, sd, "MC_C15", "MC_C15_gen", workers=3)
@@ -190,7 +191,7 @@ class F15(Family):
 
 # ------------------------------------------------------------------ C16 PCO / PSI
 class F16(Family):
-    name, pid, trace, shards, records = "f16", "C16", "Trace_C16", 4, "pco"
+    name, pid, trace, shards, driver, records = "f16", "C16", "Trace_C16", 4, "pco", True
 
     def pool(self, c, sd):
         a, r1 = _gen(c, sd, "MC_C16", "MC_C16_gen", workers=2)
@@ -227,18 +228,21 @@ class F16(Family):
 
 # ------------------------------------------------------------------ C18 UE policy container
 class F18(Family):
-    name, pid, trace, shards, records = "f18", "C18", "Trace_C18", 6, "uepol"
+    name, pid, trace, shards, driver, records = "f18", "C18", "Trace_C18", 6, "uepol", True
 
     def pool(self, c, sd):
         return _gen(c, sd, "MC_C18_gen", "MC_C18_gen", workers=3)
 
+    DEC_OPS = ("DecodeMsg", "ListUnmarshal", "ContentUnmarshal", "InstrsUnmarshal", "PartsUnmarshal", "ResultUnmarshal", "RContentUnmarshal", "ResultsUnmarshal")
+
     def add_recorded(self, pool, events):
+        """cmd/uepol record: seeded random structures and octet strings (its histories of one live object are stateful: not here)"""
         for ln in events:
             if len(ln) > 6000: continue
             e = json.loads(ln)
             if e["op"] == "Build":
                 pool.append(dict(k="build", st=e["st"], jobs=[], rec=True))
-            elif e["op"] != "PlmnRow" and 0 < len(e["in"]) <= 80 and not e["hang"]:
+            elif e["op"] in self.DEC_OPS and 0 < len(e["in"]) <= 80 and not e["hang"]:
                 pool.append(dict(k="dec", jobs=[dict(ops=[e["op"]], base=e["in"], cuts=[len(e["in"])], patches=[])], rec=True))
 
     def plan(self, pool, rng, scale):
@@ -270,7 +274,7 @@ class F18(Family):
 
 # ------------------------------------------------------------------ C06 / C07 ciphering and integrity
 class FSec(Family):
-    shards = 12
+    shards, driver = 12, "sec"
 
     def __init__(self, name, pid, trace, cfg):
         self.name, self.pid, self.trace, self.cfg = name, pid, trace, cfg
